@@ -159,6 +159,11 @@ def to_tfrecord(saved_data_description: list[Attribute],
             feature[attribute.name] = bytes_feature(
                 [tf.io.serialize_tensor(value).numpy()])
         elif attribute.dtype == "float32":
+            # Anything but numbers (e.g. strings) could be written but the
+            # record could never be parsed back.
+            if value.dtype.kind not in "fiub":
+                raise ValueError(f"Cannot save {value.dtype} as a float for "
+                                 f"attribute {attribute.name}.")
             feature[attribute.name] = float_feature(values[attribute.name])
         elif attribute.dtype == "str":
             feature[attribute.name] = bytes_feature(
